@@ -29,7 +29,7 @@ mod native {
         fn from_le(b: &[u8]) -> Self { b[0] != 0 }
     }
     impl FromLe for char {
-        fn from_le(b: &[u8]) -> Self { char::from_u32(u32::from_le(b)).expect("REPLAY: invalid char") }
+        fn from_le(b: &[u8]) -> Self { char::from_u32(<u32 as FromLe>::from_le(b)).expect("REPLAY: invalid char") }
     }
     pub fn any<T: FromLe>() -> T {
         let v = QUEUE.with(|q| q.borrow_mut().pop_front()).expect("REPLAY: input queue exhausted");
